@@ -1,2 +1,2 @@
 # properties with a registered check, in the order they were built
-CLAIMED = ["C16"]
+CLAIMED = ["C01", "C02", "C07", "C10", "C11", "C15", "C16", "C17", "C18"]
